@@ -480,6 +480,18 @@ def oracles(shape, res, ix):
             # a step got a result although the collection was never asked about THIS step: a resolution was reused
             out['canonical-event-sequence'] = 'step %s was resolved without consulting the step collection for it (the resolution of another step was reused)' % unasked
             return out
+        # hooks that are set but were never reached (no World::new for the before hook, no call of the hook at all)
+        called = set(x[1] for x in tl if x[0] == 'call')
+        wn_ = [x for x in tl if x[0] == 'world_new']
+        missing = None
+        if shape.before and not wn_ and 'before' not in called:
+            missing = 'a before hook is set, but neither World::new nor the hook was called in this attempt'
+        elif shape.after and 'after' not in called and not any(x[0] == 'ev' and x[1] == 'Hook' and x[2] == 'After' for x in tl):
+            missing = 'an after hook is set, but it was never called in this attempt'
+        if missing:
+            for k_ in ('world-threaded-through-hooks-and-steps', 'canonical-event-sequence', 'world-created-at-most-once-and-only-when-needed'):
+                out[k_] = missing
+            return out
         out['reference-applicable'] = 'the run made choices the specification would not make: %r' % (e,)
         return out
     got_ev = [e for e in tl if e[0] == 'ev']
